@@ -124,7 +124,7 @@ def work(item: tuple) -> dict:
                 hits += 1
                 res["budget_hits"] += 1
                 if "C06" in which:
-                    res["viol"].append(("C06", dict(base, kind="nontermination", status=status,
+                    res["viol"].append(("C06", dict(base, kind="nontermination", status=status, derivation_cycle="derivation_cycle" in feats,
                                                    sig="nontermination:" + ",".join(feats))))
                 continue
             if status == "cap":
@@ -182,7 +182,7 @@ def work(item: tuple) -> dict:
                 if st2 in ("budget", "timeout"):
                     hits += 1
                     res["budget_hits"] += 1
-                    res["viol"].append(("C06", dict(base, request="prefix", kind="nontermination", status=st2,
+                    res["viol"].append(("C06", dict(base, request="prefix", kind="nontermination", status=st2, derivation_cycle="derivation_cycle" in feats,
                                                    sig="nontermination:" + ",".join(feats))))
         res["max_adm"] = counter.max_seen
     return res
